@@ -409,6 +409,8 @@ def run(ck: Checker) -> None:
     ck.guard("R-TREE-TYPE", lambda: r_tree_type(ck))
     ck.guard("R-TREE-STATE", lambda: r_tree_state(ck))
     ck.guard("R-TREE-STATE", lambda: r_tree_fresh(ck))
+    from . import state_rules as S
+    ck.guard("R-TREE-STATE", lambda: S.r_shared_defaults(ck, "R-TREE-STATE", TREE, ("Tree",)))
     ck.guard("R-PRESENCE", lambda: T.r_presence(ck))
     ck.guard("R-PRESENCE", lambda: T.r_child_abc(ck))
     ck.guard("R-TYPES-CACHE", lambda: T.r_types_cache(ck))
